@@ -1,11 +1,17 @@
 """C40 — sorting, shuffling and de-duplication keep exactly the right rows.
 
 Model:    lean/DaskModel/Model/Shuffle.lean (digit/insert/inputs arithmetic of the staged task shuffle,
-          shuffle_group's stage index, SimpleShuffle / TaskShuffle wiring evaluated on rows, set_partitions_pre)
-Theorems: lean/DaskModel/Props/C40.lean
+          shuffle_group's stage index, SimpleShuffle / TaskShuffle wiring evaluated on rows, set_partitions_pre),
+          lean/DaskModel/Model/SortValues.lean (sort_values / set_index pipeline, the presorted test of
+          _calculate_divisions, drop_duplicates through TreeReduce / ShuffleReduce)
+Theorems: lean/DaskModel/Props/C40.lean (helpers: Lemmas/Shuffle, ShuffleExact, ShufflePerm, SortValues, Dedup)
 Tie:      function level: shuffle_group (both branches), TaskShuffle._layer wiring + stage/nsplits float glue,
-          set_partitions_pre; API level: shuffle (tasks/disk, max_branch forcing several stages, npartitions
-          in/out), sort_values, set_index, drop_duplicates/unique/nunique vs the model and pandas.
+          set_partitions_pre, _calculate_divisions (mins, maxes, presorted), pandas drop_duplicates vs the specification;
+          expression level: TaskShuffle on arbitrary _partitions columns (count unchanged / grown / shrunk, selections);
+          pipeline level: real partitions of sort_values / set_index(divisions=) / drop_duplicates vs the Lean pipelines
+          evaluated with the divisions / hash classes the lowered graph really uses;
+          API level: shuffle (tasks/disk, max_branch forcing several stages, npartitions in/out, partitions[sel]),
+          sort_values, set_index, drop_duplicates/unique/nunique vs the model and pandas.
 """
 from __future__ import annotations
 
@@ -20,27 +26,58 @@ READY = True
 DRIVER = "dm_dfpart"
 LEAN_MODULES = ["DaskModel.Props.C40"]
 CASE_TIMEOUT_S = 90
-LEVEL_TEXT = ("Lean 4 theorems over a transliteration of the task shuffles: staged_route / staged_position (for every "
-              "starting partition, after all stages a row sits in staged partition target % npartitions_input, given "
-              "nsplits**stages >= npartitions_input), task_shuffle_sound (frame level: every row found in output partition p of "
-              "the whole staged shuffle - all stages, padding, optional final resize - has target p), task_shuffle_complete (unchanged partition count: every input row is found in the output "
-              "partition named by its target - no row lost), task_shuffle_colocated, staged_colocated, stageIndex_is_digit / stageIndex_hashing "
-              "(shuffle_group's digit arithmetic), simple_shuffle_exact (SimpleShuffle output p = the rows with target % n = p, "
-              "in input order, with multiplicity) and simple_shuffle_colocated, set_partitions_pre_spec (value inside "
-              "[d0, d_last) goes to the partition whose half-open interval contains it, out-of-range values to the nearest "
-              "end) — all inputs, no size bound. Multiplicity of the STAGED shuffle at frame level (no row duplicated; completeness when the partition count changes), sort_values / "
-              "set_index global order, drop_duplicates / unique / nunique and the disk shuffle are VALIDATED: the Lean "
-              "frame-level model (taskShuffle: stages, padding, final shuffle_group_2) is diffed row-for-row and in order "
-              "against real task shuffles with max_branch 2-3, npartitions in/out 1-14, int/str/float/categorical keys with "
-              "NA; sort/set_index/dedup against pandas.")
-LEVEL_NOTE = ("Trusted: Lean kernel + standard axioms; pandas hash_object as a function of the key cells (checked: equal keys "
-              "colocate); the float glue stages/nsplits (checked against nsplits**stages >= npartitions); partd for the disk "
-              "shuffle (order not preserved: known finding for drop_duplicates keep=first/last); null strings in sort keys "
-              "are rejected by dask and not generated; object-dtype strings do not work in this sandbox.")
-TECHNIQUE = "Lean 4 proof (digit arithmetic, list induction) over an executable transliteration + differential correspondence + property oracle on the real code"
+LEVEL_TEXT = ("Lean 4 theorems (all frames / partitionings / hash functions / k >= 1, stages with k**stages >= npartitions_input "
+              ">= 1; no size bound) over transliterations of dask/dataframe/shuffle.py and dask_expr/_shuffle.py. "
+              "SHUFFLE: task_shuffle_exact - the whole TaskShuffle._layer (every stage over k**stages positions, empty padding, "
+              "last stage, shuffle_group_2/shuffle_group_get resize) returns exactly nOut partitions and output p is the "
+              "ordered sub-sequence of the concatenated input (same relative order, same multiplicity) of the rows with "
+              "target % n = p (count unchanged) / target = p (count changed); corollaries task_shuffle_perm(_same_count/_resize) "
+              "(multiset of rows preserved; rows whose target names no output are dropped only on the resize path), "
+              "task_shuffle_eq_simple (staging is invisible), task_shuffle_mem_iff / _sound / _complete / _colocated (equal keys "
+              "end in one partition), task_shuffle_order; simple_shuffle_exact / _perm / _colocated; digit arithmetic "
+              "(staged_route, staged_position, staged_colocated, stageIndex_is_digit, stageIndex_hashing); "
+              "set_partitions_pre_spec. SORT: for the pipeline set_partitions_pre -> shuffle on _partitions -> per-partition "
+              "sort, any divisions with >= 2 entries, ascending/descending, na_position first/last, ANY shuffle that only "
+              "delivers input rows to the partition named by _partitions and ANY per-partition sort returning a sorted "
+              "permutation: sort_values_globally_ordered (NaN placement included), sort_values_rows (multiset), "
+              "sort_values_keys_eq_reference (key column = that of any sorted arrangement of the rows, i.e. pandas'), "
+              "sort_values_tasks (all hypotheses discharged for the staged task shuffle), set_index_truthful / "
+              "set_index_tasks_truthful (C41's Truthful predicate for non-decreasing divisions spanning the data), "
+              "presorted_shortcut_sorted / presorted_shortcut_eq_full_path / set_index_presorted_truthful (the presorted test "
+              "of _calculate_divisions, after b29bf66, implies the shortcut's result is ordered, equals the full path's key "
+              "column and rows, and mins+[maxes[-1]] are truthful divisions). DEDUP: drop_duplicates_tree_eq (split_out=1: "
+              "exactly pandas, rows and order, keep first/last), drop_duplicates_tasks_perm (chunk + staged task shuffle + "
+              "aggregate: output p = pandas' result restricted to the keys hashing to p; whole result = pandas' as a "
+              "multiset), drop_duplicates_keys_any_shuffle (unique / nunique / distinct keys right for ANY row order inside "
+              "the shuffled partitions), drop_duplicates_arrival_order_refuted (which duplicate survives is NOT pandas' for "
+              "arrival-order shuffles: the recorded finding for shuffle_method='disk'). VALIDATED ONLY (differential tie, "
+              "no theorem): that the partd-based DiskShuffle delivers every row to the partition named by _partitions "
+              "(the hypothesis under which the sort theorems apply to it); multi-column sort keys and non-numeric keys "
+              "(strings, categoricals: API level vs pandas); quantile divisions (any division vector is covered by the "
+              "theorems, that they balance partitions is not claimed); the optimizer rewrites around these expressions.")
+LEVEL_NOTE = ("Trusted: Lean kernel + standard axioms; pandas on ONE partition (hash_object as a function of the key cells; "
+              "sort_values/sort_index returning a sorted permutation - no tie order is assumed, pandas' default sort is not "
+              "stable; drop_duplicates(keep) = the specification dedupFirst/dedupLast, diffed exhaustively on short frames; "
+              "Series.min/max skipping NaN; searchsorted(side='right') on sorted divisions = number of leading entries <= x); "
+              "the float glue stages/nsplits (checked against nsplits**stages >= npartitions); partd (order of collected "
+              "pieces = arrival order: finding for drop_duplicates keep=first/last). Null strings in sort keys are rejected by "
+              "dask and not generated; object-dtype strings do not work in this sandbox. Keys are interned as naturals: only "
+              "<=, == of key values are used.")
+TECHNIQUE = ("Lean 4 proof (digit arithmetic, strictly-sorted-list extensionality, List.Perm, pairwise-order arguments) over "
+             "executable transliterations + differential correspondence at function, expression, pipeline and API level + "
+             "property oracles on the real code")
 ASSUMPTIONS = ["hash_object_dispatch is a function of the row's key cells (equal keys => equal hashes): checked per case",
                "stages/nsplits computed with math.log / ** (1/stages) satisfy nsplits**stages >= npartitions_input "
-               "(checked for every generated (npartitions, max_branch) and exhaustively npartitions <= 400 x max_branch <= 32 in thorough)"]
+               "(checked for every generated (npartitions, max_branch) and exhaustively npartitions <= 400 x max_branch <= 32 in thorough)",
+               "per-partition pandas sort_values / sort_index return a sorted permutation of the partition (any tie order)",
+               "per-partition pandas drop_duplicates(keep=first|last) keeps exactly the first|last row of every key, order kept "
+               "(diffed against the Lean specification: exhaustive over key sequences of length <= 6 over 3 letters in thorough)",
+               "the disk shuffle delivers every row to the partition named by its _partitions value, in unspecified order "
+               "(checked per case: rows per partition as sets)",
+               "divisions passed to set_partitions_pre are non-decreasing (SortValues._lower sorts them; check_divisions for user "
+               "divisions): the model's bisectRight equals searchsorted(side='right') only then"]
+TRUSTED = ["pandas group_split / hash_object / searchsorted / sort_values / drop_duplicates on a single partition",
+           "partd (disk shuffle storage)"]
 
 
 def _stage_params(n_in, n_out_parts, max_branch):
@@ -252,6 +289,15 @@ def case_shuffle_api(ctx, inp):
         ctx.eq("task shuffle partitions (rows and order)", model, ids)
     else:
         ctx.eq("disk shuffle partitions (rows)", [sorted(p) for p in model], [sorted(p) for p in ids])
+        # exact diff against the disk model: every output is a concatenation of WHOLE pieces (one per input partition,
+        # row order kept) and ONE arrival order of the input partitions explains all outputs
+        arrival = _infer_arrival(ids, lens)
+        if arrival is None:
+            ctx.disagree("disk shuffle outputs are not whole pieces in one common arrival order", "diskShuffle arrival", ids)
+        else:
+            ctx.eq("disk shuffle partitions (rows and order) for the inferred arrival order",
+                   ctx.lean(Sym("disk-shuffle"), arrival, src, nout), ids)
+            ctx.branch("disk-arrival-" + ("input-order" if arrival == sorted(arrival) else "permuted"))
     ctx.branch("keys-" + inp["kind"] + ("-na" if any(k is None for k in inp["keys"]) else ""))
     # a selection of output partitions (PartitionsFiltered: the `_filter` of the last stage)
     sel = inp.get("sel")
@@ -271,6 +317,49 @@ def case_shuffle_api(ctx, inp):
             ctx.eq("selected partitions of the disk shuffle (rows)", [sorted(p) for p in exp], [sorted(p) for p in got])
         psel = _stage_params(n_eff, len(sel), mb)
         ctx.branch("api-selection-" + ("simple" if psel is None else "staged"))
+
+
+def _infer_arrival(ids, lens):
+    """the order in which the input partitions were appended to partd, read off the outputs; None if some output is
+    not a concatenation of whole per-partition pieces or no single order explains all outputs"""
+    import bisect
+    starts, pos = [], 0
+    for ln in lens:
+        starts.append(pos)
+        pos += ln
+    nonempty = [i for i, ln in enumerate(lens) if ln]
+
+    def src_of(v):
+        i = bisect.bisect_right(starts, v) - 1
+        while lens[i] == 0:      # empty partitions share their start with the next one
+            i += 1
+        return i
+    succ = {i: set() for i in range(len(lens))}
+    for rows in ids:
+        seq = []
+        for v in rows:
+            sp = src_of(v)
+            if not seq or seq[-1] != sp:
+                seq.append(sp)
+        if len(set(seq)) != len(seq):
+            return None
+        for a, b in zip(seq, seq[1:]):
+            succ[a].add(b)
+    indeg = {i: 0 for i in succ}
+    for a in succ:
+        for b in succ[a]:
+            indeg[b] += 1
+    order, ready = [], sorted(i for i in succ if indeg[i] == 0)
+    while ready:
+        a = ready.pop(0)
+        order.append(a)
+        for b in sorted(succ[a]):
+            indeg[b] -= 1
+            if indeg[b] == 0:
+                ready.append(b)
+        ready.sort()
+    del nonempty
+    return order if len(order) == len(lens) else None
 
 
 def case_task_expr(ctx, inp):
